@@ -75,6 +75,19 @@ fn run<T: Coords>(case: &Value) -> Option<Vec<(&'static str, Value)>> {
                  ("fev", json!(fev.comps().iter().map(|x| s(*x)).collect::<Vec<_>>())),
                  ("tan", json!(T::dcomps(&tan).iter().map(|x| s(*x)).collect::<Vec<_>>())), ("end", json!(end))]
         }
+        "rays" => {
+            let p: Vec<T> = points(&case["P"], den);
+            let v: Vec<T> = points(&case["V"], den);
+            // a direction is the difference between a point and the origin of the space (exact)
+            let zero = T::make(&vec![0.0; case["P"].as_array().unwrap().len()]);
+            let rays: Vec<re::geom::Ray<T, T::Diff>> = p.iter().zip(&v).map(|(p, v)| re::geom::Ray(p.clone(), v.sub(&zero))).collect();
+            let sp = BezierSpline::from_rays(rays);
+            let t = gi(case, "kk") as f32 / 64.0;
+            let (ev, tan) = (sp.eval(t), sp.tangent(t));
+            let endp = if t <= 0.0 { p[0].clone() } else { p.last().unwrap().clone() };
+            vec![("ev", json!(ev.comps().iter().map(|x| s(*x)).collect::<Vec<_>>())), ("end", json!((ev == endp) as u8)),
+                 ("stan", json!(T::dcomps(&tan).iter().map(|x| s(*x)).collect::<Vec<_>>()))]
+        }
         "spline" => {
             let c: Vec<T> = points(&case["C"], den);
             let sp = BezierSpline::new(&c);
@@ -193,6 +206,15 @@ pub fn gen(args: &Args, out: &mut dyn Write) {
                 let p: Vec<Vec<i64>> = (0..nc).map(|_| (0..4).map(|_| rng.range(-mag, mag)).collect()).collect();
                 let k = match rng.below(8) { 0 => 0, 1 => 64, 2 => -rng.range(1, 32), 3 => 64 + rng.range(1, 32), _ => rng.range(1, 63) };
                 writeln!(out, "{}", json!({"k": key, "op": "cubic", "ty": ty, "P": p, "kk": k, "den": *rng.pick(&[1i64, 1, 10, 7, 3])})).unwrap();
+            }
+            5..=7 if i % 9 == 4 => {
+                // from_rays: one to nine rays (one ray cannot make a curve)
+                let n = rng.range(1, 9) as usize;
+                let p: Vec<Vec<i64>> = (0..nc).map(|_| (0..n).map(|_| rng.range(-mag, mag)).collect()).collect();
+                let v: Vec<Vec<i64>> = (0..nc).map(|_| (0..n).map(|_| rng.range(-mag / 2, mag / 2)).collect()).collect();
+                let segs = (n as i64 - 1).max(1);
+                let k = match rng.below(6) { 0 => 0, 1 => 64, 2 => (64 / segs) * rng.range(0, segs), 3 => -5, 4 => 70, _ => rng.range(1, 63) };
+                writeln!(out, "{}", json!({"k": key, "op": "rays", "ty": ty, "P": p, "V": v, "kk": k, "den": *rng.pick(&[1i64, 1, 10, 7, 3])})).unwrap();
             }
             5..=7 => {
                 let segs = rng.range(1, 8);
